@@ -535,7 +535,8 @@ class ApplyTemplates(Transformer_InPlace):
     def template_usage(self, c):
         name = c[0].name
         args = c[1:]
-        result_name = "%s{%s}" % (name, ",".join(a.name for a in args))
+        # An anonymous token ("x") and a named one (X: "x") share a name but differ in filter_out: they need separate instances
+        result_name = "%s{%s}" % (name, ",".join(a.name + '~' if a.is_term and a.filter_out else a.name for a in args))
         if result_name not in self.created_templates:
             self.created_templates.add(result_name)
             (_n, params, tree, options) ,= (t for t in self.rule_defs if t[0] == name)
